@@ -480,6 +480,10 @@ func Run(id, tier string, seed int, workers int) int {
 		go func() {
 			defer wg.Done()
 			m := vm.New(ld.Prog, ld.Pkgs, vm.RepoModule)
+			m.PermuteBudget = 1
+			if tier == "thorough" {
+				m.PermuteBudget = 2
+			}
 			zt := chk.Z3TimeoutMs
 			if zt == 0 {
 				zt = 8000
@@ -530,6 +534,9 @@ func Run(id, tier string, seed int, workers int) int {
 					fmt.Printf("START %s\n", c.ID)
 				}
 				res := m.RunCase(spec)
+				if os.Getenv("VERIF_CASELOG") != "" {
+					fmt.Fprintf(os.Stderr, "CASELOG paths=%d wall=%.1fs queries=%d %s\n", res.Paths, res.Wall.Seconds(), res.Solver.Queries, spec.ID)
+				}
 				if os.Getenv("VERIF_SLOW") != "" {
 					fmt.Printf("END %s paths=%d wall=%s\n", c.ID, res.Paths, res.Wall)
 				}
